@@ -22,8 +22,10 @@ pub fn pool(t: &Ty) -> Vec<V> {
         Ty::Ip => vec![V::Ip("1.2.3.4".parse().unwrap()), V::Ip("::1".parse().unwrap())],
         Ty::Arr(e) => {
             let p = pool(e);
-            let mut ragged: Vec<V> = p.iter().rev().cloned().collect();
-            ragged.push(p[0].clone());
+            // ragged: a short element, the shortest, the longest, the shortest again - so that under a
+            // trailing index a miss is followed by a hit and by another miss
+            let n = p.len();
+            let ragged: Vec<V> = vec![p[1 % n].clone(), p[0].clone(), p[n - 1].clone(), p[0].clone()];
             vec![V::Arr((**e).clone(), vec![]), V::Arr((**e).clone(), vec![p[0].clone()]), V::Arr((**e).clone(), ragged)]
         }
         Ty::Map(e) => {
